@@ -10,4 +10,5 @@ INVARIANT CNoLoss
 INVARIANT CInRightFile
 INVARIANT CNoStrangers
 INVARIANT CNoRaise
+INVARIANT CNeverOverwrites
 CHECK_DEADLOCK FALSE
